@@ -69,6 +69,14 @@ def ctx_variants(params: List[Dict[str, Any]], flavour_async: bool) -> Iterator[
     cand = [first] + params
     if hm.valid_order(cand):
         yield {'params': cand, 'flavour': fn, 'ctx': 'positional'}
+    # the context as a positional-ONLY first parameter (only positional=True can serve it), registered on the registry or through dispatcher.add
+    if not n_po:
+        cand = [{'name': 'ctx', 'kind': 'PO', 'ctx': True}] + params
+        if hm.valid_order(cand):
+            yield {'params': cand, 'flavour': fn, 'ctx': 'positional'}
+            yield {'params': cand, 'flavour': fn, 'ctx': 'positional', 'via': 'dispatcher.add'}
+    if hm.valid_order([first] + params):
+        yield {'params': [first] + params, 'flavour': fn, 'ctx': 'positional', 'via': 'dispatcher.add'}
     # class based view: through the constructor, or no context at all; the instance parameter need not be called 'self'
     yield {'params': params, 'flavour': vw, 'ctx': 'view'}
     yield {'params': params, 'flavour': vw, 'ctx': 'none'}
